@@ -49,6 +49,28 @@ CLAIMS["C11"] = {
     "design_ref": "DESIGN.md §3 C11",
 }
 
+CLAIMS["C08"] = {
+    "category": "exploration",
+    "technique": "reference-model oracle (R-BIF, independent Python reference of the listed built-ins) over observed invocations + metamorphic named-vs-positional monitor; 10 % replay on ASan in the thorough tier",
+    "text": "Seeded and enumerated argument tuples are bound to scope names (partly spelled as literals) and invoked through the real parser and evaluator positionally and with named parameters in several orders: every start and length from -(L+2) to L+2 over ASCII/BMP/astral strings and lists of length 0..8 with nulls, nesting and duplicates; 1.0-style and fractional positions; values near 2^63/2^64; every function x arity 0..4 over 16 value kinds; regex, number() and equality grids. Every observed value is compared with R-BIF (written from DMN 1.3 tables 72-76, self-checked on 65 examples of those tables) and every named invocation with its positional twin; panics are violations. Quick ~0.4 M calls, thorough ~5 M.",
+    "note": "R-BIF (lib/rbif.py) is trusted. Where the specification supports two readings (singleton-list conversion of arguments, explicit null for optional parameters, non-integer lengths) both results are accepted; regex functions are decided only on a validated subset common to XPath, Rust regex and Python re; string() of lists/contexts, custom sort orders and date min/max are undecided. Aggregates within 2 ulp.",
+    "design_ref": "DESIGN.md §3 C08",
+}
+CLAIMS["C16"] = {
+    "category": "exploration",
+    "technique": "in-driver law monitor over an exhaustively observed relation matrix + independent DMN 10.3.2.9 reference with blame localisation + coercion rule oracle (direct and through FEEL invocations)",
+    "text": "The driver builds the type universe on the real FeelType (10 simple types; list, range, context 0..2 entries, function 0..2 parameters), observes is_conformant and is_equivalent for every ordered pair by real calls, and decides reflexivity, top/bottom, symmetry, equivalence => mutual conformance, co/contra-variance, 'different results are not equivalent' on all pairs and transitivity on all triples (bit-row inclusion) plus seeded direct triples; every pair is also compared with an independent reference. Depth 1 (1261 types, 1.59 M pairs, 2.0e9 triples) is exhaustive; depth 2 is walked by seeded families and, in the thorough tier, exhaustively over reduced bases (up to 15251 types). coerced() is checked on 3809 inhabitant values x 2512 targets against the statement's rule, result-conforms-or-null, idempotence and type_of; the same rule is observed through 2 M real FEEL invocations (function(x: T) x)(v).",
+    "note": "Held on what was enumerated: depth 2 is sampled except over reduced bases. The reference (mod reference in ops_types.rs) is trusted; context width, which the statement does not spell out, is undecided when the code rejects it. The coercion rule is decided with the implementation's own is_conformant (itself checked pair by pair).",
+    "design_ref": "DESIGN.md §3 C16",
+}
+CLAIMS["C19"] = {
+    "category": "exploration",
+    "technique": "generated Unicode drawings with a field-by-field reference comparison; differential against the DMN XML twin; single-character text corruption for totality; dbg, rel and ASan builds",
+    "text": "Abstract tables (1..5 inputs, 1..3 outputs, 0..2 annotations, 1..8 rules, all 11 markers, both orientations, all optional-part combinations, multi-line and merged cells) are drawn by an independent renderer (validated each run by re-drawing the 70 shipped examples), recognised by the real dmntk_recognizer::build and compared field by field with what was drawn; each recognised table is evaluated and compared with its DMN-XML twin on inputs steered to match no, one and several rules; 114k (quick) / 2.2M (thorough) corruptions per build plus arbitrary texts must be recognised or rejected without panic, abort or hang on debug, release and a 10 % ASan slice, and debug and release must agree on accept vs reject.",
+    "note": "Crosstab drawings are not generated (unimplemented in the recognizer); default output entries cannot be drawn; evaluator semantics shared by the text path and the XML twin are C03's subject. G-DRAW (lib/gdraw.py) is trusted as far as its self-validation on the shipped examples goes.",
+    "design_ref": "DESIGN.md §3 C19",
+}
+
 NOT_YET = "check not built yet in this round (work in progress; see DESIGN.md for the planned monitor)"
 
 
